@@ -675,6 +675,88 @@ def battery(chk):
     if names != ['r', 'v', 'e', 'f', 'f1', 'f2']: bad.append(('export order of an interface', case2, names, ['r', 'v', 'e', 'f', 'f1', 'f2']))
     return bad
 
+# ---------------------------------------------------------------------------- encoding half: one kernel (TypeEncoder::use_aliases)
+
+def rule_use_aliases(chk):
+    """the per-scope table of used types holds, after use_aliases, exactly the used types of the interface being encoded: each aliased from the
+    instance of its owning interface under its original name, at the index the alias receives; nothing survives from a previous interface"""
+    K = chk.pick(2, 3)
+    chk.bounds['use_aliases'] = {'used_types': K, 'stale_entries_before': 1}
+    fns = chk.load('wac-graph'); decls = chk.decls('wac-graph'); wt = chk.decls('wac-types')
+    COUNT = Function('type_count_at', IntSort(), z3.BitVecSort(32))
+    def m_type_count(ctx):
+        k = len([t for t in ctx.st.trace if t[0] == 'alias']); ctx.event('count', k); return ctx.ret(COUNT(z3.IntVal(k)))
+    def m_alias(ctx): ctx.event('alias', ctx.args[1]); return ctx.ret(UNIT)
+    def m_iface(ctx):
+        idv = ctx.deref(ctx.args[1]); return ctx.ret(Ref(Lazy(f'iface[{idv.name}]', 'Interface'), ()))
+    def m_desc(ctx): return ctx.ret(Opaque('desc'))
+    ov = [(r'^(?:encoding::)?Encodable::type_count$', m_type_count), (r'^(?:encoding::)?Encodable::alias$', m_alias), (r'^<wac_types::Types as Index<(?:wac_types::)?InterfaceId>>::index$', m_iface),
+          (r'^(?:wac_types::)?ItemKind::desc$', m_desc)]
+    eng = chk.engine(fns, decls, overrides=ov, vec_cap=K, loop_bound=K + 3); eng.atom_strings = True
+    def eq_hook(a, b):
+        t = (a.ty or b.ty or '')
+        if 'Type' in t or t.endswith('Id') or t == '': return lazy_atom(a).t == lazy_atom(b).t
+        return None
+    eng.eq_hook = eq_hook
+    c = [n for n in eng.fns if re.search(r'^encoding::<impl at [^>]*>::use_aliases$', n)]
+    if len(c) != 1: raise engine.EngineError(f'TypeEncoder::use_aliases: {c}')
+    fname = c[0]
+    at = lambda x: lazy_atom(x).t
+    names = [Lazy(f'use.name{i}', 'std::string::String') for i in range(K)]; ifaces = [Lazy(f'use.interface{i}', 'InterfaceId') for i in range(K)]
+    renamed = [Bool(f'use.renamed{i}') for i in range(K)]; orig = [Lazy(f'use.original{i}', 'std::string::String') for i in range(K)]
+    uo = [x for x, t in wt.structs['UsedType'][1]]
+    def used(i):
+        f = [None, None]; f[uo.index('interface')] = ifaces[i]; f[uo.index('name')] = Enum('Option', If(renamed[i], bv64(1), bv64(0)), {'None': (), 'Some': (orig[i],)})
+        return Agg(f, 'UsedType')
+    io = [x for x, t in wt.structs['Interface'][1]]
+    iid = [Lazy(f'iface[{ifaces[i].name}]', 'Interface').kid(str(io.index('id'))).kid('Some.0') for i in range(K)]
+    inst_idx = [BitVec(f'instance_index{i}', 32) for i in range(K)]
+    stale_name = Lazy('stale.name', 'std::string::String'); stale_idx = BitVec('stale.index', 32)
+    so = [x for x, t in decls.structs['Scope'][1]]; sto = [x for x, t in decls.structs['State'][1]]
+    for nu in range(1, K + 1):
+        st = engine.State()
+        scope = [Opaque('scope-field')] * len(so)
+        scope[so.index('type_indexes')] = MapV(()); scope[so.index('type_aliases')] = MapV(((stale_name, stale_idx),))
+        # every owning interface is available as an imported instance (the encoder imports them first); two uses of one interface share the entry
+        inst_entries = [(iid[i], inst_idx[i]) for i in range(nu)]
+        scope[so.index('instances')] = MapV(tuple(inst_entries)); scope[so.index('encodable')] = Opaque('encodable')
+        sf = [Opaque('state-field')] * len(sto); sf[sto.index('current')] = Agg(scope, 'Scope'); sf[sto.index('scopes')] = VecV(())
+        scell = st.alloc(Agg(sf, 'State'))
+        uses = Ref(st.alloc(MapV(tuple((names[i], used(i)) for i in range(nu))))); items = Ref(Lazy('items', 'IndexMap<String, ItemKind>'), ())
+        fn = eng.fns[fname]; fr = engine.Frame(fn)
+        for (loc, ty), a in zip(fn.params, [Ref(st.alloc(Agg((Ref(Lazy('types', 'Types'), ()),), 'TypeEncoder'))), Ref(scell), uses, items]): fr.env[loc] = st.alloc(a)
+        n0 = len(eng.out); st.frames = [fr]; eng.run(st); outs = eng.out[n0:]; chk.account(eng, [fname])
+        base = list(eng.assumptions) + [at(a) != at(b) for a, b in itertools.combinations(names[:nu], 2)] + [at(stale_name) != at(n) for n in names[:nu]]
+        # the interface ids of the used types are present and distinct interfaces have distinct ids / instance entries
+        for i in range(nu):
+            base.append(Lazy(f'iface[{ifaces[i].name}]', 'Interface').kid(str(io.index('id'))).disc == bv64(1))
+        for i, j in itertools.combinations(range(nu), 2): base.append(at(iid[i]) != at(iid[j]))
+        bads = []
+        for o in outs:
+            if o.kind == 'bound': continue
+            if o.kind != 'ret':
+                if os.environ.get('C08_DEBUG'): print('  non-ret', o.kind, o.site, o.value)
+                # preconditions of a well-formed Types collection: the owning interface has an id and exports the used name (their violation panics by design)
+                if o.kind == 'panic' and str(o.value) in ('unwrap on None', 'expect on None'): continue
+                bads.append(o.cond()); continue     # (a missing export of the owning interface would panic: excluded by the lazily instantiated `get` returning Some - see below)
+            post = o.st.heap[scell].f[sto.index('current')].f[so.index('type_aliases')].entries
+            al = [t for t in o.st.trace if t[0] == 'alias']
+            cs = [BoolVal(len(post) == nu and len(al) == nu)]
+            if len(post) == nu and len(al) == nu:
+                for i in range(nu):
+                    k, v = post[i]
+                    cs.append(to_atom(eng, eng.deref(o.st, k)).t == at(names[i])); cs.append(eng.term(v, 'u32') == COUNT(z3.IntVal(i)))
+                    a = al[i][1]; a = eng.deref(o.st, a) if isinstance(a, Ref) else a
+                    fs = a.f if isinstance(a, Agg) else (list(a.vars.values())[0] if isinstance(a, Enum) else None)
+                    if fs is None: cs.append(BoolVal(False)); continue
+                    cs.append(eng.term(fs[0], 'u32') == inst_idx[i])
+                    cs.append(to_atom(eng, eng.deref(o.st, fs[2])).t == If(renamed[i], at(orig[i]), at(names[i])))
+            bads.append(And(o.cond(), Not(And(cs))))
+        r, m = chk.obligation(f'TypeEncoder::use_aliases ({nu} used types): afterwards the scope\'s alias table is exactly the used types of this interface (in order, at the index each alias receives), each aliased from the instance of its owning interface under its original name',
+                              base + [Or(bads + [BoolVal(False)])], base=base)
+        if r == 'sat':
+            chk.finding('use-aliases-table', 'TypeEncoder::use_aliases leaves an entry of a previously encoded interface in the alias table, or aliases a used type from the wrong instance / name / index (rule-level counterexample over the MIR)', {'rule': 'use_aliases'})
+
 def body(chk):
     chk.assumptions += ['the wasmparser arena is arbitrary: every `wasm_types[id]` is an unconstrained value of the declared wasmparser type; `peel_alias` is an uninterpreted partial function',
                         'assume-guarantee: while one converter is checked, every other converter returns an arbitrary value per argument and fails or succeeds by an uninterpreted predicate',
@@ -691,6 +773,7 @@ def body(chk):
     chk.part('component_func_type', rule_func_type, C)
     chk.part('component_instance_type', exports_rule, C, 'component_instance_type', ['exports'])
     chk.part('component_type', exports_rule, C, 'component_type', ['imports', 'exports'])
+    chk.part('TypeEncoder::use_aliases', rule_use_aliases, chk)
     bad = battery(chk)
     if chk.violations:
         # attach the documents that expose the deviation (the rule-level findings above are over the MIR)
